@@ -92,7 +92,20 @@ class LBase:
         return 1 if self.is1d else 2
 
     def __len__(self):
-        return int(self.shape[0])
+        r = self.shape[0]
+        if isinstance(r, sx.SymInt):
+            # len() must answer a Python int: the symbolic length has to be enumerated.  With a fallback bound set
+            # by the harness (engine.len_bound = (length term, largest value)) the run degrades from "every n" to
+            # "every n up to the bound" and says so (engine.remarks); without one this is an engine error.
+            e = sx.cur()
+            lb = getattr(e, "len_bound", None)
+            if lb is not None:
+                if not getattr(e, "_len_bound_used", False):
+                    e._len_bound_used = True
+                    e.assume(sx.SymInt(lb[0]) <= lb[1])
+                    e.remarks.add(f"len() of a symbolic-length array is taken by the code under test: lengths enumerated up to {lb[1]} instead of unbounded")
+                return e.realize(r, limit=4096)
+        return int(r)
 
     def _key(self, key):
         """-> (r0, rlen, c0, clen, squeeze_col)"""
